@@ -144,8 +144,11 @@ class FromHex(Enc):
 
     def enc(self, p, r):
         h = p.hex().encode()
-        if r.random() < 0.5:
+        x = r.random()
+        if x < 0.4:
             h = h.upper()
+        elif x < 0.55:
+            h = randcase(r, h)  # the call form is case-insensitive as a whole: digits may mix cases
         return randcase(r, r.choice([b"", b"[System.Convert]::"]) + b"FromHexString(") + b"'" + h + b"')"
 
 
@@ -218,7 +221,7 @@ class Concat(Enc):
         for i, part in enumerate(parts):
             q = b"'" if (set(part) & set(b"\\`")) else r.choice([b'"', b"'"])
             if i:
-                out += r.choice([b" + ", b"+", b" & ", b"&", b" &amp; ", b" +\n", b" _\r\n& ", b"\t+\t"])
+                out += spacer(r)
             out += q + part + q
         return out
 
@@ -240,6 +243,16 @@ class StrReverse(Reverse):
     def enc(self, p, r):
         q = quote_for(r, p)
         return r.choice([b"StrReverse(", b"strreverse( ", b"STRREVERSE("]) + pad(r) + q + p[::-1] + q + pad(r) + r.choice([b")", b" )"])
+
+
+def spacer(r) -> bytes:
+    """A joining operator with any run of white space / line-continuation underscores on either side."""
+    if r.random() < 0.6:
+        return r.choice([b" + ", b"+", b" & ", b"&", b" &amp; ", b" +\n", b" _\r\n& ", b"\t+\t"])
+    ws = [b" ", b"\t", b"\n", b"\r\n", b"_", b" _\r\n", b"\x0b", b"\x0c", b"\r"]
+    left = b"".join(r.choice(ws) for _ in range(r.randint(0, 3)))
+    right = b"".join(r.choice(ws) for _ in range(r.randint(0, 3)))
+    return left + r.choice([b"+", b"&", b"&amp;"]) + right
 
 
 def pad(r) -> bytes:
@@ -375,7 +388,7 @@ def neutral_payload(r) -> bytes:
     return r.choice(PAYLOADS)(r)
 
 
-def build_stack(r, height: int, names=None, payload=None, pad_to=None):
+def build_stack(r, height: int, names=None, payload=None, pad_to=None, max_blob=16000):
     """-> record or None (domain violated; caller re-draws)."""
     p = payload if payload is not None else neutral_payload(r)
     encs = [BY_NAME[n] for n in names] if names else [r.choice(ENCODERS[:-1]) for _ in range(height)]
@@ -393,7 +406,7 @@ def build_stack(r, height: int, names=None, payload=None, pad_to=None):
             return None
         plains[i] = cur
         blob = e.enc(cur, r)
-        if blob is None or len(blob) > 16000:
+        if blob is None or len(blob) > max_blob:
             return None
         cur = blob
     blob = cur
